@@ -14,14 +14,19 @@ Proved:
   run-time exception decided per position);
 * `soundness_partial₃` — + inline fragments, fragment spreads, type conditions, `@skip`/`@include`,
   merged response keys (under `MergeOk`, which is what OverlappingFieldsCanBeMerged provides);
-* `blame_partial₃` — over arbitrary data no request-attributable error occurs.
-The hypotheses that remain are about other layers: the value layer (`OpsSoundV`, C15), schema
-validity (`SoundHyps`: defaults coercible, interface fields implemented identically) and field
-merging (`MergeOk`, C14).
+* `blame_partial₃` — over arbitrary data no request-attributable error occurs;
+* `soundness_partial₄` / `blame_partial₄` — the merge hypothesis replaced by the static rule
+  Field Selection Merging (`specMergeable`, `Gql/Exec/ValidMerge.lean`, compared with `validate()`
+  in the required direction by `checks/c13.py`): `mergeOkT_of_specMergeable`.
+The hypotheses that remain are about other layers: the value layer (`OpsSoundV`, C15) and schema
+validity (`SoundHyps`: defaults coercible, interface fields implemented identically).
 -/
 import Gql.Proofs.SoundExec3
 import Gql.Proofs.SoundExample
 import Gql.Proofs.SoundBlame
+import Gql.Proofs.SoundMerge4
+import Gql.Proofs.SoundFullWitness
+import Gql.Proofs.SoundMergeExample
 import Gql.Props.C02
 
 namespace Gql.Props.C13
@@ -33,7 +38,13 @@ FieldsInSetCanMerge (C14 proves that rule correct for `overlapping_fields_can_be
 own document model, `Gql.Props.C14.overlap_iff`; that FieldsInSetCanMerge implies `MergeOk` —
 fields grouped under one response key at run time come from scopes whose parent types all contain
 the runtime type, hence are "same parent or not both object types", hence the same field — is not
-proved here), and `SoundHyps.ifaceOk` by the covariant form of interface implementation. -/
+proved here), and `SoundHyps.ifaceOk` by the covariant form of interface implementation.
+
+Status: the derivation is now proved (`Valid.mergeOkT_of_specMergeable`, `soundness_partial₄`), with
+the static rule stated on this document model as `Valid.specMergeable`.  The statement below,
+however, has `validOp` as its only validation hypothesis, and `validOp` does not contain the merge
+rule: as written it is false (`soundness_full_false`).  `soundness_partial₄` is this statement with
+the missing rule added. -/
 def soundness_full : Prop :=
   ∀ (ops : Ops) (s : Schema) (doc : Doc) (op : Operation) (opName : Option Name) (vars : Vars)
     (root : RVal) (rt : Name),
@@ -217,7 +228,9 @@ theorem blame_partial₂ (ops : Ops) (s : Schema) (doc : Doc) (hyps : SoundHyps 
   blame_gen ops s doc hyps op opName vars root rt hsel hvalid hvok htyped hops hexc
     (mergeOk_of_plain _ op hplain hdist) hroot
 
-/-- **C13-2, full statement**: `blame_partial₃` without `MergeOk` (see `soundness_full`). -/
+/-- **C13-2, full statement**: `blame_partial₃` without `MergeOk` (see `soundness_full`).  As written
+(no merge rule among the hypotheses) it is false: `blame_full_false`; with `specMergeable` added it
+is `blame_partial₄`. -/
 def blame_full : Prop :=
   ∀ (ops : Ops) (s : Schema) (doc : Doc) (op : Operation) (opName : Option Name) (vars : Vars)
     (root : RVal) (rt : Name),
@@ -247,5 +260,172 @@ example : (Spec.executeRequest exOps exS exDoc3 none exVars3 exRoot).errors = []
   soundness_partial₃ exOps exS exDoc3 exHyps exOp3 none exVars3 exRoot "Query" rfl (by decide)
     exVarsOk3 exVarsTyped3 exOpsV3 (by decide)
     (mergeOk_of_keyNames _ exOp3 (by decide)) rfl exConf
+
+/-! ### stage 4: the merge hypothesis derived from the static rule -/
+
+/-- **C13-1, stage 4 (`soundness_partial₄`): `MergeOk` replaced by Field Selection Merging.**
+Like `soundness_partial₃`, with the run-time hypothesis `MergeOk` replaced by the static rule of
+the specification (§5.3.2 FieldsInSetCanMerge + SameResponseShape over the fragment-expanded
+selection sets with parent types, `Valid.specMergeable`, an executable predicate on the document
+that `checks/c13.py` evaluates on every document `validate()` accepts).  So: an operation that
+passes validation (`validOp` and `specMergeable`), variable values as CoerceVariableValues hands
+them over, no position where the specification defers to run time, a conforming root value ⇒ no
+errors, and `data` of exactly the prescribed shape.
+
+The derivation (`Valid.mergeOkT_of_specMergeable`): all fields CollectFields groups under one
+response key for a runtime object type `T` come from scopes whose type condition contains `T`;
+two parent types that both contain `T` are equal or not both object types, so FieldsInSetCanMerge
+demands the same field name (and arguments) and a mergeable merged set, which is the selection
+set execution continues with.  It uses `SoundHyps.ifaceOk` (an object type implements its
+interfaces' fields with identical definitions) to identify the return type found on the runtime
+type with the one found on the static parent type.
+
+The merge fact derived is `MergeOkT`: `MergeOk` restricted to the object types a field's
+sub-selections can be executed on (possible types of the field's return type); the general chain
+is re-proved under it (`Gql/Proofs/SoundMerge3.lean`).  The unrestricted `MergeOk` does *not*
+follow from validation (`mergeOk_not_from_validation` below). -/
+theorem soundness_partial₄ (ops : Ops) (s : Schema) (doc : Doc) (hyps : SoundHyps ops s)
+    (op : Operation) (opName : Option Name) (vars : Vars) (root : RVal) (rt : Name)
+    (hsel : Spec.getOperation doc.ops opName = some op)
+    (hvalid : validOp s doc op = true)
+    (hmergeable : specMergeable s doc op = true)
+    (hvok : VarsOk op.vars vars) (htyped : VarsTyped s op.vars vars)
+    (hops : OpsSoundV ops s op.vars vars)
+    (hexc : mayHitNullViaDefault s doc op vars = false)
+    (hroot : Spec.rootType s op.kind = some rt)
+    (hconf : Conforms ops s (.named rt true) root) :
+    (Spec.executeRequest ops s doc opName vars root).errors = [] ∧
+    shapeResponse ops s doc op vars root (Spec.executeRequest ops s doc opName vars root).data = true :=
+  soundness_T ops s doc hyps op opName vars root rt hsel hvalid hvok htyped hops hexc
+    (mergeOkT_of_specMergeable ops s doc hyps op vars hvalid hmergeable) hroot hconf
+
+/-- `soundness_partial₄` for the implementation model of C02. -/
+theorem soundness_partial₄_impl (ops : Ops) (s : Schema) (doc : Doc) (hyps : SoundHyps ops s)
+    (hok : Refine.OpsOk ops)
+    (op : Operation) (opName : Option Name) (vars : Vars) (root : RVal) (rt : Name)
+    (hsel : Spec.getOperation doc.ops opName = some op)
+    (hvalid : validOp s doc op = true)
+    (hmergeable : specMergeable s doc op = true)
+    (hvok : VarsOk op.vars vars) (htyped : VarsTyped s op.vars vars)
+    (hops : OpsSoundV ops s op.vars vars)
+    (hexc : mayHitNullViaDefault s doc op vars = false)
+    (hroot : Spec.rootType s op.kind = some rt)
+    (hconf : Conforms ops s (.named rt true) root) :
+    ∃ resp, (Impl.executeRequest ops s doc opName vars root []).1 = .ok resp ∧
+      resp.errors = [] ∧ shapeResponse ops s doc op vars root resp.data = true :=
+  ⟨_, C02.impl_eq_spec ops hok s doc opName vars root,
+    soundness_partial₄ ops s doc hyps op opName vars root rt hsel hvalid hmergeable hvok htyped hops
+      hexc hroot hconf⟩
+
+/-- **C13-2, stage 4 (`blame_partial₄`)**: `blame_partial₃` with `MergeOk` replaced by the static
+rule `specMergeable`: for an operation that passes validation, over arbitrary data, no error of
+the response is of a request-attributable kind. -/
+theorem blame_partial₄ (ops : Ops) (s : Schema) (doc : Doc) (hyps : SoundHyps ops s)
+    (op : Operation) (opName : Option Name) (vars : Vars) (root : RVal) (rt : Name)
+    (hsel : Spec.getOperation doc.ops opName = some op)
+    (hvalid : validOp s doc op = true)
+    (hmergeable : specMergeable s doc op = true)
+    (hvok : VarsOk op.vars vars) (htyped : VarsTyped s op.vars vars)
+    (hops : OpsSoundV ops s op.vars vars)
+    (hexc : mayHitNullViaDefault s doc op vars = false)
+    (hroot : Spec.rootType s op.kind = some rt) :
+    ∀ e ∈ (Spec.executeRequest ops s doc opName vars root).errors,
+      e.kind ≠ .argCoercion ∧ e.kind ≠ .directiveCoercion :=
+  blame_T ops s doc hyps op opName vars root rt hsel hvalid hvok htyped hops hexc
+    (mergeOkT_of_specMergeable ops s doc hyps op vars hvalid hmergeable) hroot
+
+/-- **Field merging from the static rule** (the step that was argued in the docstring of
+`soundness_full`): validation (`validOp` + `specMergeable`) gives the merge fact execution needs,
+and `soundness_partial₃`'s hypothesis `MergeOk` implies it (so stage 4 subsumes stage 3). -/
+theorem mergeOkT_of_validation (ops : Ops) (s : Schema) (doc : Doc) (hyps : SoundHyps ops s)
+    (op : Operation) (vars : Vars)
+    (hvalid : validOp s doc op = true) (hmergeable : specMergeable s doc op = true) :
+    MergeOkT { ops := ops, schema := s, doc := doc, vars := vars } op ∧
+    (MergeOk { ops := ops, schema := s, doc := doc, vars := vars } op →
+      MergeOkT { ops := ops, schema := s, doc := doc, vars := vars } op) :=
+  ⟨mergeOkT_of_specMergeable ops s doc hyps op vars hvalid hmergeable, MergeOk.toT⟩
+
+open Gql.Exec.Valid.Example in
+/-- the hypotheses of `soundness_partial₄` / `blame_partial₄` are satisfiable (the stage 3 example:
+the key `id` merged from a fragment spread and an inline fragment); `specMergeable` is evaluated -/
+example : (Spec.executeRequest exOps exS exDoc3 none exVars3 exRoot).errors = [] ∧
+    shapeResponse exOps exS exDoc3 exOp3 exVars3 exRoot
+      (Spec.executeRequest exOps exS exDoc3 none exVars3 exRoot).data = true :=
+  soundness_partial₄ exOps exS exDoc3 exHyps exOp3 none exVars3 exRoot "Query" rfl (by decide)
+    (by decide) exVarsOk3 exVarsTyped3 exOpsV3 (by decide) rfl exConf
+
+/-! ### `MergeOk` itself does not follow from validation -/
+
+
+open Gql.Exec.Valid.MergeWitness in
+/-- **`validOp → specMergeable → MergeOk` is false.**  The document
+`{ a { x: foo ... on I { ... on B { x: bar } } } }` over `Query { a: A }` with object types `A`,
+`B` implementing `I` passes validation (the parent types `A` and `B` of the two `x` are different
+object types, so FieldsInSetCanMerge only asks for the same response shape; `validate()` of the
+implementation accepts it as well).  `MergeOk` follows the sub-selections of `a` to *every* object
+type, also to `B`, which `a : A` can never be at run time; collected for `B` the key `x` groups
+`foo` and `bar`.  `MergeOkT`, which follows them only to the possible types of `A`, holds
+(`mergeOkT_of_specMergeable`). -/
+theorem mergeOk_not_from_validation :
+    validOp wS wDoc wOp = true ∧ specMergeable wS wDoc wOp = true ∧ ¬ MergeOk wCx wOp := by
+  refine ⟨by decide, by decide, ?_⟩
+  intro h
+  have hr : ReachSel wCx wOp "B"
+      (Spec.mergeSelectionSets [{ alias := none, name := "a", args := [], dirs := [], sels := aSels }]) :=
+    ReachSel.step (k := "a") (rt' := "B") (ReachSel.root (rt := "Query") rfl)
+      (groups := [("a", [{ alias := none, name := "a", args := [], dirs := [], sels := aSels }])])
+      rfl (List.mem_singleton.2 rfl) (by decide)
+  have hu := h "B" _ hr
+    [("x", [{ alias := some "x", name := "foo", args := [], dirs := [], sels := [] },
+            { alias := some "x", name := "bar", args := [], dirs := [], sels := [] }])] rfl
+  have hne := hu _ (List.mem_singleton.2 rfl)
+    { alias := some "x", name := "foo", args := [], dirs := [], sels := [] } (by simp)
+    { alias := some "x", name := "bar", args := [], dirs := [], sels := [] } (by simp)
+  exact absurd hne (by decide)
+
+open Gql.Exec.Valid.Example Gql.Exec.Valid.MergeWitness in
+/-- the hypotheses of `soundness_partial₄` are satisfiable where the merge rule matters and stage 3
+says nothing: in `{ a { x: foo ... on I { ... on B { x: bar } } } }` the key `x` names two different
+fields (under the different object parent types `A` and `B`), so the checkable criterion of stage 3
+fails (`keyNamesConsistent = false`) and `MergeOk` itself is false
+(`mergeOk_not_from_validation`); `A` implements the interface `I` (`SoundHyps.ifaceOk` is used) -/
+example : keyNamesConsistent wDoc wOp = false ∧
+    (Spec.executeRequest exOps wS wDoc none [] wRoot).errors = [] ∧
+    shapeResponse exOps wS wDoc wOp [] wRoot (Spec.executeRequest exOps wS wDoc none [] wRoot).data = true :=
+  ⟨by decide, soundness_partial₄ exOps wS wDoc wHyps wOp none [] wRoot "Query" rfl (by decide) (by decide)
+    wVarsOk wVarsTyped wOpsV (by decide) rfl wConf⟩
+
+/-! ### `soundness_full` / `blame_full` as stated are false: `validOp` does not contain the merge rule -/
+
+open Gql.Exec.Valid.Example Gql.Exec.Valid.FullWitness in
+/-- **`soundness_full` is false as stated**: its only validation hypothesis is `validOp`, which
+leaves out Field Selection Merging.  `{ x: b { __typename } x: a { q } }` over
+`Query { a: A b: B }`, `A { q: String }`, `B { q(r: Int!): String }` passes `validOp`; the key `x`
+groups `b` and `a`, the merged sub-selections `{ __typename q }` are executed on `B`, where `q`
+lacks its required argument: an argument coercion error over conforming data.  (`validate()`
+rejects the document: "'b' and 'a' are different fields".)  The true statement is
+`soundness_partial₄`, whose `specMergeable` is the missing rule. -/
+theorem soundness_full_false : ¬ soundness_full := by
+  intro h
+  have h1 := (h exOps fS fDoc fOp none [] fRoot "Query" fHyps rfl fValid fVarsOk fVarsTyped fOpsV fExc
+    rfl fConf).1
+  have h2 := fErrors
+  rw [h1] at h2
+  simp at h2
+
+open Gql.Exec.Valid.Example Gql.Exec.Valid.FullWitness in
+/-- **`blame_full` is false as stated** (same request as `soundness_full_false`; the error is of
+kind argument coercion).  The true statement is `blame_partial₄`. -/
+theorem blame_full_false : ¬ blame_full := by
+  intro h
+  have h1 := h exOps fS fDoc fOp none [] fRoot "Query" fHyps rfl fValid fVarsOk fVarsTyped fOpsV fExc rfl
+  have hm : ErrKind.argCoercion ∈ (Spec.executeRequest exOps fS fDoc none [] fRoot).errors.map (·.kind) := by
+    rw [fErrors]; simp
+  obtain ⟨e, he, hk⟩ := List.mem_map.1 hm
+  exact (h1 e he).1 hk
+
+open Gql.Exec.Valid.FullWitness in
+/-- the request of `soundness_full_false` is not accepted by the static merge rule -/
+example : specMergeable fS fDoc fOp = false := by decide
 
 end Gql.Props.C13
